@@ -89,6 +89,8 @@ func C10(p *core.Prog, r *core.Report) {
 	MergeRanged(p, r)
 	NegIndex(p, r)
 	WrapCond(p, r)
+	Window(p, r)
+	EraseOrder(p, r)
 	ConcatOffset(p, r)
 	r.Rule("FMAP", ruleFmap, 12)
 	Fmap(p, r, []FmapSpec{{Pkg: gts, Name: "Insert", Inputs: []int{0, 2}}, {Pkg: gts, Name: "Embed", Inputs: []int{0, 2}}, {Pkg: gts, Name: "Delete", Inputs: []int{0}}, {Pkg: gts, Name: "Slice", Inputs: []int{0}}, {Pkg: gts, Name: "Concat", Variadic: true}})
